@@ -336,6 +336,25 @@ func IOWrite[T any](s []T, site string) []T {
 	return s
 }
 
+// IOReadP / IOWriteP are used for file I/O (os.File and friends): a system call is a
+// place where the Go scheduler switches goroutines, so it is a scheduling point of
+// its own while the monitor is on. Without it everything between a goroutine's last
+// lock operation and its file I/O would be atomic, and an unsynchronised access by
+// another goroutine could never fall in between.
+func IOReadP[T any](s []T, site string) []T {
+	if e := ex; e != nil && e.hb != nil && !e.dead {
+		e.point(op{kind: KYield})
+	}
+	return IORead(s, site)
+}
+
+func IOWriteP[T any](s []T, site string) []T {
+	if e := ex; e != nil && e.hb != nil && !e.dead {
+		e.point(op{kind: KYield})
+	}
+	return IOWrite(s, site)
+}
+
 // IORelease mirrors output through log / fmt (a write system call).
 func IORelease() {
 	if e := ex; e != nil && e.hb != nil && !e.dead {
